@@ -78,14 +78,18 @@ variable {K E : Type} {n m p s : Nat} {U : UserModel n m p K E}
 variable [Add K] [Sub K] [Mul K] [Div K] [Zero K] [LT K] [DecidableLT K]
 
 /-- the cache computed from a weighted basis matrix `Φ_w` (body of `set_params` after the model
-calls): finite check, SVD, truncated solve, residual matrix -/
+calls): finite check, SVD, check of the singular values (a decomposition with singular values that
+are not finite is discarded before it is sorted - sorting them would panic), truncated solve,
+residual matrix -/
 def computeCache (x : Ext K) (o : XOps K) (Yw : Mat n s K) (eps : K) (Phiw : Mat n m K) :
     Option (Cache n m s K) :=
   if Phiw.all o.isFinite then
     let d := x.svd n m Phiw
-    match solveTrunc d Yw eps with
-    | .error _ => none
-    | .ok C => some { residuals := Yw.sub (Phiw.mul C), svd := d, coeff := C }
+    if d.sigma.all o.isFinite then
+      match solveTrunc d Yw eps with
+      | .error _ => none
+      | .ok C => some { residuals := Yw.sub (Phiw.mul C), svd := d, coeff := C }
+    else none
   else none
 
 /-- `LeastSquaresProblem::set_params` (sequential and parallel flavour are the same code) -/
